@@ -123,6 +123,8 @@ pub enum LenSpec {
     Abs(u32),
     /// 2^(b + shift) + off where b is the integer value of the b field (clamped to 0..=19)
     Rel { shift: i8, off: i8 },
+    /// mul * 2^b / div (multiples and fractions of the right length)
+    Mul { mul: u8, div: u8 },
 }
 
 #[derive(Clone, Debug, Serialize, Deserialize)]
@@ -159,6 +161,7 @@ fn render(c: &DocCase) -> String {
             let e = (bb + shift as i64).clamp(0, 19);
             (1i64 << e) + off as i64
         }
+        LenSpec::Mul { mul, div } => (1i64 << bb.min(14)) * mul as i64 / (div.max(1) as i64),
     }
     .clamp(0, 1 << 19);
     let mut regs: Vec<String> = Vec::with_capacity(n as usize);
@@ -306,7 +309,23 @@ pub fn mutate(c: &BytesCase) -> Vec<u8> {
             break;
         }
         let p = idx(pos, bytes.len());
-        match kind % 6 {
+        match kind % 7 {
+            6 => {
+                // repeat the body of the first JSON array (val % 7 + 1) more times: k * 2^b registers
+                if let (Some(a), Some(b)) = (bytes.iter().position(|&c| c == b'['), bytes.iter().position(|&c| c == b']')) {
+                    if a + 1 < b {
+                        let body: Vec<u8> = bytes[a + 1..b].to_vec();
+                        let mut ins = vec![];
+                        for _ in 0..(val % 7 + 1) {
+                            ins.push(b',');
+                            ins.extend_from_slice(&body);
+                        }
+                        if ins.len() < 20_000 {
+                            bytes.splice(b..b, ins);
+                        }
+                    }
+                }
+            }
             0 => bytes[p] = val as u8,
             1 => {
                 bytes.remove(p);
@@ -392,6 +411,8 @@ fn doc_strategy(tier: Tier) -> BoxedStrategy<DocCase> {
     ];
     let len = prop_oneof![
         2 => prop_oneof![Just(0u32), Just(1), Just(15), Just(16), Just(17), Just(32)].prop_map(LenSpec::Abs),
+        1 => (0u32..300).prop_map(LenSpec::Abs),
+        3 => (prop_oneof![Just(3u8), Just(5), Just(6), Just(7), Just(9), Just(12), 1u8..20], prop_oneof![3 => Just(1u8), 1 => Just(2u8), 1 => Just(4u8)]).prop_map(|(mul, div)| LenSpec::Mul { mul, div }),
         6 => (-1i8..=1, -1i8..=1).prop_map(|(shift, off)| LenSpec::Rel { shift, off }),
         6 => Just(LenSpec::Rel { shift: 0, off: 0 }),
     ];
@@ -447,7 +468,7 @@ pub fn checks() -> Vec<Box<dyn DynCheck>> {
 }
 
 pub fn run(ctx: &Ctx) {
-    ctx.set_rule("round_trip: b in 4..=18, registers from generated boundary hashes and add(x) keys under a serialisable seeded hasher, through serde_json string and Value; equal sketch, b, registers, hasher, count and identical reaction to further adds and a merge with a third sketch. documents: structurally generated JSON documents with b in {-1,0,3,4..18,19,63,64,70,2^64-1,1.5,\"4\",null} and registers length in {0,1,2^b-1,2^b,2^b+1,2^(b+-1)} varied independently, register values > 255 / negative, fields omitted, duplicated, reordered, unknown. byte_mutations: golden documents with up to 5 byte/token/slice mutations. Oracle: Err, or Ok(h) with 4<=b<=18 and exactly 2^b registers on which add_hashed, add, count and merge (both directions) do not panic. Non-trivial: round trips with non-empty registers; documents that parse as JSON with all three fields present; mutated inputs that still parse as JSON. Distinct = hash of the case / of the bytes.");
+    ctx.set_rule("round_trip: b in 4..=18, registers from generated boundary hashes and add(x) keys under a serialisable seeded hasher, through serde_json string and Value; equal sketch, b, registers, hasher, count and identical reaction to further adds and a merge with a third sketch. documents: structurally generated JSON documents with b in {-1,0,3,4..18,19,63,64,70,2^64-1,1.5,\"4\",null} and registers length in {0,1,2^b-1,2^b,2^b+1,2^(b+-1), k*2^b for k in 3..20, k*2^b/2, random < 300} varied independently, register values > 255 / negative, fields omitted, duplicated, reordered, unknown. byte_mutations: golden documents with up to 5 byte/token/slice mutations. Oracle: Err, or Ok(h) with 4<=b<=18 and exactly 2^b registers on which add_hashed, add, count and merge (both directions) do not panic. Non-trivial: round trips with non-empty registers; documents that parse as JSON with all three fields present; mutated inputs that still parse as JSON. Distinct = hash of the case / of the bytes.");
     ctx.assume("serde_json is the serialisation format exercised; the hasher is a seeded SipHash newtype with derive(Serialize, Deserialize)");
     ctx.run_regressions(&[&RoundTrip, &Docs, &Bytes]);
     let t = ctx.tier;
